@@ -2308,3 +2308,158 @@ impl Campaign for UdpRestart {
         }
     }
 }
+
+// ---------------------------------------------------------------------------
+// C07 on a real socket whose failures are *pending errors*: a buffered UDP sink over a
+// connected socket whose peer port was closed for a moment. The ICMP port-unreachable makes
+// one later send fail (ECONNREFUSED) without sending; by then the receiver is bound again.
+// Whatever call the error surfaces in: no line reaches the receiver twice, a metric whose
+// emit returned the error never arrives, and once a flush has returned Ok every line
+// acknowledged since the receiver came back has arrived exactly once.
+
+#[derive(Serialize, Deserialize, Clone, Debug)]
+pub struct ConnectedUdpOnceCase {
+    pub cap: u16,
+    pub len: u8,
+    pub first: u8,
+    pub second: u8,
+    /// index (among the second batch) of a metric larger than the buffer (bypass path), if any
+    pub oversize_at: Option<u8>,
+}
+
+pub struct ConnectedUdpOnce;
+
+impl Campaign for ConnectedUdpOnce {
+    type Case = ConnectedUdpOnceCase;
+    fn name(&self) -> &'static str {
+        "udp-connected-pending-error-once"
+    }
+    fn max_shrink_iters(&self) -> u32 {
+        20
+    }
+    fn strategy(&self, _tier: Tier) -> BoxedStrategy<ConnectedUdpOnceCase> {
+        (24u16..96, 3u8..10, 1u8..4, 1u8..6, proptest::option::weighted(0.4, 0u8..3))
+            .prop_map(|(cap, len, first, second, oversize_at)| ConnectedUdpOnceCase { cap, len, first, second, oversize_at })
+            .boxed()
+    }
+    fn check(&self, case: &ConnectedUdpOnceCase, _ctx: &Ctx) -> Outcome {
+        let skip = || Outcome::ok();
+        let cap = case.cap as usize;
+        let line = |tag: char, i: usize, big: bool| -> String {
+            let mut s = String::new();
+            s.push(tag);
+            s.push((b'a' + (i % 26) as u8) as char);
+            let body = if big { cap + 3 } else { case.len as usize };
+            while s.len() < body {
+                s.push((b'a' + (i % 26) as u8) as char);
+            }
+            s.push_str(":1|c");
+            s
+        };
+        let rx = match UdpSocket::bind("127.0.0.1:0") {
+            Ok(r) => r,
+            Err(_) => return skip(),
+        };
+        let addr = match rx.local_addr() {
+            Ok(a) => a,
+            Err(_) => return skip(),
+        };
+        drop(rx);
+        let sock = match UdpSocket::bind("127.0.0.1:0").and_then(|s| s.connect(addr).map(|_| s)) {
+            Ok(s) => s,
+            Err(_) => return skip(),
+        };
+        let sink = match BufferedUdpMetricSink::with_capacity(addr, sock, cap) {
+            Ok(s) => s,
+            Err(_) => return skip(),
+        };
+        for i in 0..case.first as usize {
+            let _ = sink.emit(&line('p', i, false));
+        }
+        let _ = sink.flush(); // bounces: nobody listens
+        std::thread::sleep(Duration::from_millis(3));
+        let rx2 = match UdpSocket::bind(addr) {
+            Ok(r) => r,
+            Err(_) => {
+                drop(sink);
+                return skip();
+            }
+        };
+        let _ = rx2.set_nonblocking(true);
+        let mut acked: Vec<String> = Vec::new();
+        let mut refused: Vec<String> = Vec::new();
+        let mut errors_seen = 0usize;
+        for i in 0..case.second as usize {
+            let m = line('q', i, case.oversize_at == Some(i as u8));
+            match sink.emit(&m) {
+                Ok(_) => acked.push(m),
+                Err(_) => {
+                    errors_seen += 1;
+                    refused.push(m)
+                }
+            }
+        }
+        let mut flushed = false;
+        for _ in 0..4 {
+            match sink.flush() {
+                Ok(()) => {
+                    flushed = true;
+                    break;
+                }
+                Err(_) => errors_seen += 1,
+            }
+        }
+        drop(sink);
+        let got = udp_recv_all(&rx2, if flushed && !acked.is_empty() { 1 } else { 0 }, Duration::from_millis(500));
+        let mut lines: Vec<String> = Vec::new();
+        for d in &got {
+            for l in String::from_utf8_lossy(d).split('\n') {
+                if !l.is_empty() {
+                    lines.push(l.to_string());
+                }
+            }
+        }
+        let count = |m: &str| lines.iter().filter(|l| l.as_str() == m).count();
+        let mut bad: Vec<String> = Vec::new();
+        let mut all: Vec<String> = (0..case.first as usize).map(|i| line('p', i, false)).collect();
+        all.extend(acked.iter().cloned());
+        all.extend(refused.iter().cloned());
+        for m in &all {
+            if count(m) > 1 {
+                bad.push(format!(
+                    "metric '{}' reached the receiver {} times ({} datagrams: [{}]); the connected socket reported its pending error {} time(s) - a failure must never cause a metric to be written twice",
+                    show(m.as_bytes()),
+                    count(m),
+                    got.len(),
+                    got.iter().map(|d| show(d)).collect::<Vec<_>>().join(" | "),
+                    errors_seen
+                ));
+                break;
+            }
+        }
+        if bad.is_empty() {
+            if let Some(m) = refused.iter().find(|m| count(m) > 0) {
+                bad.push(format!("emit of '{}' returned the socket's error but the metric was written (it reached the receiver)", show(m.as_bytes())));
+            }
+        }
+        if bad.is_empty() && flushed {
+            if let Some(m) = acked.iter().find(|m| count(m) != 1) {
+                bad.push(format!(
+                    "emit of '{}' returned Ok and a later flush returned Ok with the receiver bound, but the metric arrived {} times ({} socket errors seen)",
+                    show(m.as_bytes()),
+                    count(m),
+                    errors_seen
+                ));
+            }
+        }
+        Outcome {
+            verdict: match bad.first() {
+                None => Ok(()),
+                Some(b) => Err(b.clone()),
+            },
+            nontrivial: errors_seen > 0 && flushed,
+            fingerprint: util::hash_json(case),
+            classes: vec![if errors_seen > 0 { "connected UDP socket: pending error surfaced in a call" } else { "connected UDP socket: no error surfaced" }],
+        }
+    }
+}
